@@ -49,22 +49,17 @@ theorem ids_lt_nNodes (es : List E) : ∀ e ∈ es, e.1 < nNodes es ∧ e.2.1 < 
 /-- **Finset → list level**: the conclusion of the C02 theorems (`dinic_assignment_canonical`,
     `minCutOK_sound`, `cutCertOK_sound`) about the contracted graph `contractBy ρ edges` is exactly what
     `BisectionCore.valid_of_mincut` needs -/
-theorem mincut_of_finset (ρ : Nat → Nat) (edges : List (Nat × Nat)) (cell : List Nat) (dom : Nat → Bool)
-    (flow : ℤ) (inB : Nat → Bool)
-    (hs : 0 < nNodes (contractBy ρ edges)) (ht : 1 < nNodes (contractBy ρ edges))
-    (h0 : (⟨0, hs⟩ : Fin _) ∈ setOf (nNodes (contractBy ρ edges)) inB)
-    (h1 : (⟨1, ht⟩ : Fin _) ∉ setOf (nNodes (contractBy ρ edges)) inB)
-    (hval : cutCap (cF (contractBy ρ edges) (nNodes (contractBy ρ edges)))
-        (setOf (nNodes (contractBy ρ edges)) inB) = flow)
-    (hmin : ∀ S' : Finset (Fin (nNodes (contractBy ρ edges))), ⟨0, hs⟩ ∈ S' → ⟨1, ht⟩ ∉ S' →
-        cutCap (cF (contractBy ρ edges) (nNodes (contractBy ρ edges)))
-          (setOf (nNodes (contractBy ρ edges)) inB) ≤
-        cutCap (cF (contractBy ρ edges) (nNodes (contractBy ρ edges))) S')
-    (hcan : ∀ S' : Finset (Fin (nNodes (contractBy ρ edges))), ⟨0, hs⟩ ∈ S' → ⟨1, ht⟩ ∉ S' →
-        cutCap (cF (contractBy ρ edges) (nNodes (contractBy ρ edges))) S' = flow →
-        setOf (nNodes (contractBy ρ edges)) inB ⊆ S') :
-    MinCut edges cell ρ dom flow (fun p => decide (p < nNodes (contractBy ρ edges)) && inB p) := by
-  generalize hes : contractBy ρ edges = es at *
+theorem mincut_of_finset' (ρ : Nat → Nat) (edges : List (Nat × Nat)) (cell : List Nat) (dom : Nat → Bool)
+    (flow : ℤ) (inB : Nat → Bool) (es : List E) (hes : contractBy ρ edges = es)
+    (hs : 0 < nNodes es) (ht : 1 < nNodes es)
+    (h0 : (⟨0, hs⟩ : Fin _) ∈ setOf (nNodes es) inB)
+    (h1 : (⟨1, ht⟩ : Fin _) ∉ setOf (nNodes es) inB)
+    (hval : cutCap (cF es (nNodes es)) (setOf (nNodes es) inB) = flow)
+    (hmin : ∀ S' : Finset (Fin (nNodes es)), ⟨0, hs⟩ ∈ S' → ⟨1, ht⟩ ∉ S' →
+        cutCap (cF es (nNodes es)) (setOf (nNodes es) inB) ≤ cutCap (cF es (nNodes es)) S')
+    (hcan : ∀ S' : Finset (Fin (nNodes es)), ⟨0, hs⟩ ∈ S' → ⟨1, ht⟩ ∉ S' →
+        cutCap (cF es (nNodes es)) S' = flow → setOf (nNodes es) inB ⊆ S') :
+    MinCut edges cell ρ dom flow (fun p => decide (p < nNodes es) && inB p) := by
   generalize hn : nNodes es = n at *
   have hids : ∀ e ∈ es, e.1 < n ∧ e.2.1 < n := by rw [← hn]; exact ids_lt_nNodes es
   have hcut : ∀ inS : Nat → Bool, cutCap (cF es n) (setOf n inS) = (cutE ρ edges inS : Int) := by
@@ -90,6 +85,23 @@ theorem mincut_of_finset (ρ : Nat → Nat) (edges : List (Nat × Nat)) (cell : 
       (by rw [hcut]; exact heq)
     have : (⟨ρ x, hx.1⟩ : Fin n) ∈ setOf n inB := (mem_setOf n inB _).mpr hx.2
     exact (mem_setOf n inS _).mp (hsub this)
+
+theorem mincut_of_finset (ρ : Nat → Nat) (edges : List (Nat × Nat)) (cell : List Nat) (dom : Nat → Bool)
+    (flow : ℤ) (inB : Nat → Bool)
+    (hs : 0 < nNodes (contractBy ρ edges)) (ht : 1 < nNodes (contractBy ρ edges))
+    (h0 : (⟨0, hs⟩ : Fin _) ∈ setOf (nNodes (contractBy ρ edges)) inB)
+    (h1 : (⟨1, ht⟩ : Fin _) ∉ setOf (nNodes (contractBy ρ edges)) inB)
+    (hval : cutCap (cF (contractBy ρ edges) (nNodes (contractBy ρ edges)))
+        (setOf (nNodes (contractBy ρ edges)) inB) = flow)
+    (hmin : ∀ S' : Finset (Fin (nNodes (contractBy ρ edges))), ⟨0, hs⟩ ∈ S' → ⟨1, ht⟩ ∉ S' →
+        cutCap (cF (contractBy ρ edges) (nNodes (contractBy ρ edges)))
+          (setOf (nNodes (contractBy ρ edges)) inB) ≤
+        cutCap (cF (contractBy ρ edges) (nNodes (contractBy ρ edges))) S')
+    (hcan : ∀ S' : Finset (Fin (nNodes (contractBy ρ edges))), ⟨0, hs⟩ ∈ S' → ⟨1, ht⟩ ∉ S' →
+        cutCap (cF (contractBy ρ edges) (nNodes (contractBy ρ edges))) S' = flow →
+        setOf (nNodes (contractBy ρ edges)) inB ⊆ S') :
+    MinCut edges cell ρ dom flow (fun p => decide (p < nNodes (contractBy ρ edges)) && inB p) :=
+  mincut_of_finset' ρ edges cell dom flow inB _ rfl hs ht h0 h1 hval hmin hcan
 
 /-! ### soundness of the judge's certificate check -/
 
